@@ -60,10 +60,16 @@ pub fn plan_operation(
     };
 
     // Build styles list
-    let styles = build_styles_list(
-        exclude_styles.to_vec(),
-        include_styles.to_vec(),
-        only_styles.to_vec(),
+    // `build_styles_list` yields `None` only when every default style was excluded and none was
+    // included. `None` in `PlanOptions` means "scanner defaults", which would bring the excluded
+    // styles back, so an empty list (nothing enabled, nothing matches) is passed on instead.
+    let styles = Some(
+        build_styles_list(
+            exclude_styles.to_vec(),
+            include_styles.to_vec(),
+            only_styles.to_vec(),
+        )
+        .unwrap_or_default(),
     );
 
     let plan_out_path = plan_out.unwrap_or_else(|| PathBuf::from(".renamify/plan.json"));
